@@ -32,7 +32,14 @@ def gen_cases(tier, seed, configs):
         for si, (name, code, sd, nw) in enumerate(scheds):
             body += ["mark s%d" % si, "build bs=%d mode=%d" % (bs, mode),
                      "exec omp flags=%d upper=%d sched=%d seed=%d workers=%d" % (flags, upper, code, sd, nw), "dump values"]
-        cases.append(corefam.make_case("c03-%d" % k, D, H, periodic, parts, bs, mode, body, {"kind": kind, "upper": upper, "scheds": scheds}))
+        # the StarPU executor under the API-compatible mock runtime (harness/mock_starpu*): same legality rule on data handles
+        sp = []
+        for name, code in [pool[3], ("random", 2)]:
+            sp.append((name, code, r.randrange(1, 10 ** 6), r.choice([1, 2, 4, 8, 16])))
+        for si, (name, code, sd, nw) in enumerate(sp):
+            body += ["mark p%d" % si, "build bs=%d mode=%d" % (bs, mode),
+                     "exec starpu flags=%d upper=%d sched=%d seed=%d workers=%d" % (flags, upper, code, sd, nw), "dump values"]
+        cases.append(corefam.make_case("c03-%d" % k, D, H, periodic, parts, bs, mode, body, {"kind": kind, "upper": upper, "scheds": scheds, "starpu": sp}))
     return cases
 
 
@@ -62,12 +69,26 @@ def evaluate(res):
         lseg = ls.get("s%d" % si, [])
         if core.elems_of_calls(lseg) != e and e == ref_e:
             corr.append(("omp-elems", label + ": library and model disagree on the OpenMP executor's calls"))
+    for si, (name, code, sd, nw) in enumerate(c["meta"].get("starpu", [])):
+        seg = cs.get("p%d" % si)
+        if seg is None:
+            continue
+        label = "StarPU executor (mock runtime), schedule %s seed=%d workers=%d" % (name, sd, nw)
+        e, v = core.elems_of_calls(seg), sorted(core.section(seg, "V "))
+        if v != ref_v:
+            d = [(x, y) for x, y in zip(v, ref_v) if x != y][:2]
+            orc.append(("C03:starpu-values", "%s leaves values different from the sequential executor: %r" % (label, d)))
+        elif e != ref_e:
+            a, b, na, nb = core.multiset_diff(e, ref_e)
+            orc.append(("C03:starpu-elems", "%s performs %r (%d) / misses %r (%d) w.r.t. the sequential executor" % (label, a, na, b, nb)))
+        orc += [("C03:X", label + ": " + x) for x in core.section(seg, "X ")]
+        orc += [(s_, label + ": " + m) for s_, m in C02.call_predicates(c, seg)]
     return corr, orc
 
 
 def run(rep, tier, seed, replay, proof_ok, proof_msg):
-    corefam.standard_run(rep, tier, seed, replay, proof_ok, proof_msg, gen_cases, evaluate, omp=True,
+    corefam.standard_run(rep, tier, seed, replay, proof_ok, proof_msg, gen_cases, evaluate, omp=True, starpu=True,
                          corr_name="OpenMP executor (mock runtime, all tasks deferred) vs sequential executor vs Lean model")
     rep.assumptions += ["a conforming runtime = one that starts a task only after every earlier task with a conflicting declared dependence finished (harness/mock_gomp.cpp)",
                         "gcc 12 (_OPENMP=201511): `commute` is `inout`, so commuting writers are ordered by submission",
-                        "libgomp itself is not exercised; Specx and StarPU are absent from the sandbox: their executors are not run"]
+                        "libgomp itself is not exercised; the StarPU executors run under an API-compatible mock of the StarPU subset they use (deferral to the final wait, sequential data consistency per handle, commuting RW|COMMUTE accesses); Specx is a C++ template runtime absent from the sandbox: its executors are not run"]
